@@ -1,7 +1,8 @@
 """Generator of the "hw" correspondence stream (property C17: hwmon discovery and binding).
 
-A case = one fake libsensors tree (`hw.tree`), a batch of fan / sensor selectors, then the SAME
-tree with the chips enumerated in another order and the same selectors again.
+A case = one fake libsensors tree (`hw.tree`), a batch of fan / sensor selectors, multi-entry calls
+(`hw.bindsensors` / `hw.bindfans`: 2-4 of those selectors in ONE initializeSensors / initializeFans
+call), then the SAME tree with the chips enumerated in another order and the same ops again.
 
 Patterns are drawn from [A-Za-z0-9-] only, for which Go's `(?i)` regexp match equals the
 case-insensitive substring test the Lean driver uses.
@@ -53,6 +54,16 @@ HW_DIRECTED = [
     "hw.bindfan platform=hwmon7 index=1 rpm=0 pwm=0",
     "hw.bindfan platform=it87 index=1 rpm=0 pwm=0",
     "hw.bindfan platform=it8620-isa index=1 rpm=0 pwm=0",
+    "#case hw directed: several fan entries in one initializeFans call (independent entries; first failure aborts)",
+    "hw.tree spec=nct6798|1|0|656|/nx/c17/hwmon4|F1:fan2,F1:fan5,T1:temp1;coretemp|1|0|0|/nx/c17/hwmon0|T1:temp1,F1:fan1",
+    "hw.bindfans sels=nct6798:1:0:0;coretemp:0:1:3",
+    "hw.bindfans sels=coretemp:0:1:3;nct6798:1:0:0",
+    "hw.bindfans sels=nct6798:2:0:0;nct6798:2:0:0;nct6798:0:2:7",
+    "hw.bindfans sels=nct6798:1:0:0;coretemp:0:2:3;zzz:0:0:0",
+    "hw.bindfans sels=zzz:0:0:0;nct6798:1:0:0",
+    "hw.bindfans sels=:0:0:0;-:0:0:4;nct6798:3:0:0;coretemp:1:0:0",
+    "hw.bindsensors sels=nct6798:1;coretemp:1;nct6798:1",
+    "hw.bindsensors sels=coretemp:1;coretemp:2;zzz:1",
 ]
 
 
@@ -242,6 +253,20 @@ def gen_sensor_sel(r, chips):
     return f"hw.bindsensor platform={pat} index={index}"
 
 
+def fan_sel_hits(chips, op):
+    """does this hw.bindfan selector name a device? (mirror of the documented behaviour, used only to aim
+    the multi-entry calls at the all-entries-bound path)"""
+    kvs = dict(t.split("=", 1) for t in op.split()[1:])
+    pat, index, rpm = kvs.get("platform", ""), int(kvs.get("index", "0")), int(kvs.get("rpm", "0"))
+    for c in chips:
+        if pat.lower() not in platform(c).lower():
+            continue
+        for i, ch in enumerate(fan_channels(c)):
+            if (index <= 0 or i + 1 == index) and (rpm <= 0 or ch == rpm):
+                return True
+    return False
+
+
 def gen_hwmon_case(r):
     chips = gen_tree(r)
     ops = ["#case hw", f"hw.tree spec={tree_tok(chips)}"]
@@ -252,7 +277,9 @@ def gen_hwmon_case(r):
         sels.append(gen_sensor_sel(r, chips))
     sels = r.shuffle(sels)
     ops += sels
-    # several sensor entries in ONE initializeSensors call (an entry must not inherit anything from an earlier one)
+    # several entries in ONE initializeSensors / initializeFans call (an entry must not inherit anything from
+    # an earlier one; the first entry without a device aborts the call)
+    multi = []
     ssel = [x for x in sels if x.startswith("hw.bindsensor ")]
     for _ in range(2):
         pick = [r.pick(ssel) for _ in range(r.range(2, 4))]
@@ -260,11 +287,32 @@ def gen_hwmon_case(r):
         for x in pick:
             kvs = dict(t.split("=", 1) for t in x.split()[1:])
             toks.append(f"{kvs.get('platform', '')}:{kvs.get('index', '0')}")
-        ops.append("hw.bindsensors sels=" + ";".join(toks))
+        multi.append("hw.bindsensors sels=" + ";".join(toks))
+    fsel = [x for x in sels if x.startswith("hw.bindfan ")]
+    for k in range(3):
+        n = r.range(2, 4)
+        # k = 0: any entries (with repetitions); k = 1: distinct entries (mostly ones that name a device); k = 2: a permutation / sub-list of the previous call
+        if k == 0:
+            pick = [r.pick(fsel) for _ in range(n)]
+        elif k == 1:
+            good = [x for x in fsel if fan_sel_hits(chips, x)]
+            pool = good if len(good) >= 2 and r.chance(0.7) else fsel
+            pick = r.sample(pool, min(n, len(pool)))
+        else:
+            pick = r.shuffle(pick)
+            if len(pick) > 2 and r.chance(0.4):
+                pick = pick[:-1]
+        toks = []
+        for x in pick:
+            kvs = dict(t.split("=", 1) for t in x.split()[1:])
+            toks.append(f"{kvs.get('platform', '')}:{kvs.get('index', '0')}:{kvs.get('rpm', '0')}:{kvs.get('pwm', '0')}")
+        multi.append("hw.bindfans sels=" + ";".join(toks))
+    ops += multi
     if len(chips) > 1:
-        # same tree, chips enumerated in another order, same selectors
+        # same tree, chips enumerated in another order, same selectors and multi-entry calls
         ops.append(f"hw.tree spec={tree_tok(r.shuffle(chips))}")
         ops += sels
+        ops += multi
     return ops
 
 
